@@ -22,6 +22,12 @@ CONN = 'observable::connectable_observable::ConnectableObservable'
 
 
 def check(cx):
+    _env_wrapped = True
+    from . import c03
+    return _check_own(cx) + c03.envelopes(cx, ID)
+
+
+def _check_own(cx):
     F = cx.facts
     res = []
     conn = 'verif_controls::EagerConnectable' if cx.control else CONN
